@@ -374,7 +374,7 @@ func copyModel(m map[string]string) map[string]string {
 // cutImages enumerates the power-loss images of one crash point: every file with an unsynced tail
 // cut to every length in [synced, current); then pairs of files (all combinations when the product is
 // <= maxPair, otherwise lengths within 16 bytes of either end). visit receives a description.
-func cutImages(p *crashPoint, maxPair int, visit func(s *Snap, desc string) bool) {
+func cutImages(p *crashPoint, maxPair int, filter func(n, from, to int64) bool, visit func(s *Snap, desc string) bool) {
 	type tail struct {
 		rel      string
 		from, to int64
@@ -396,6 +396,9 @@ func cutImages(p *crashPoint, maxPair int, visit func(s *Snap, desc string) bool
 	}
 	for _, t := range tails {
 		for n := t.from; n < t.to; n++ {
+			if filter != nil && !filter(n, t.from, t.to) {
+				continue
+			}
 			s := p.Snap.clone()
 			cut(s, t.rel, n)
 			if !visit(s, fmt.Sprintf("%s cut to %d of %d (synced %d)", t.rel, n, t.to, t.from)) {
@@ -410,6 +413,9 @@ func cutImages(p *crashPoint, maxPair int, visit func(s *Snap, desc string) bool
 			lens := func(t tail) []int64 {
 				var out []int64
 				for n := t.from; n < t.to; n++ {
+					if filter != nil && !filter(n, t.from, t.to) {
+						continue
+					}
 					if full || n-t.from < 16 || t.to-n <= 16 {
 						out = append(out, n)
 					}
